@@ -22,6 +22,11 @@ S(s)   == [t |-> "str", v |-> s]
 L(q)   == [t |-> "list", v |-> q]          \* q : Seq(Val)
 M(f)   == [t |-> "map", v |-> f]           \* f : [set of strings -> Val]
 
+\* integers beyond TLC's 32-bit range (up to 2^53 in absolute value) are carried
+\* as decimal digit strings; the model only prints, negates, compares for
+\* equality and concatenates them
+Big(s) == [t |-> "bigint", v |-> s]
+
 IsBad(v) == v.t = "err" \/ v.t = "unspec"
 
 Abs(n) == IF n < 0 THEN -n ELSE n
@@ -62,6 +67,7 @@ Truthy(v) == CASE v.t = "undef" -> FALSE
                [] v.t = "bool"  -> v.v
                [] v.t = "int"   -> v.v # 0
                [] v.t = "float" -> v.num # 0
+               [] v.t = "bigint" -> TRUE
                [] v.t = "str"   -> v.v # ""
                [] OTHER -> TRUE
 
@@ -70,6 +76,10 @@ Truthy(v) == CASE v.t = "undef" -> FALSE
 (***************************************************************************)
 EqualsV(a, b) ==
   IF a.t \in {"list", "map"} /\ b.t = a.t THEN "u"   \* identity semantics: out of domain
+  ELSE IF a.t = "bigint" \/ b.t = "bigint" THEN
+         (IF a.t = b.t THEN (IF a.v = b.v THEN "t" ELSE "f")
+          ELSE IF (a.t = "int" \/ b.t = "int") THEN "f"      \* a 32-bit int never equals a big one
+          ELSE IF IsNum(a) \/ IsNum(b) THEN "u" ELSE "f")
   ELSE IF IsNum(a) /\ IsNum(b) THEN
          IF AddOK(a) /\ AddOK(b) THEN (IF NumCmp(a, b) = 0 THEN "t" ELSE "f") ELSE "u"
   ELSE IF a.t # b.t THEN "f"
@@ -132,6 +142,7 @@ ToText(v) ==
   CASE v.t = "null" -> "null"
     [] v.t = "bool" -> IF v.v THEN "true" ELSE "false"
     [] v.t = "int" -> ToString(v.v)
+    [] v.t = "bigint" -> v.v
     [] v.t = "float" -> FloatText(v.num, v.sh)
     [] v.t = "str" -> v.v
     [] v.t = "list" -> "[" \o JoinList(v.v, 1) \o "]"
